@@ -20,12 +20,15 @@
 (***************************************************************************)
 EXTENDS Judge, SlicerRef
 
-R == Run(UnpackProg(C.prog), TRUE)
-ApplyEqualsRef == Check("ApplyEqualsRef", C.k <= Len(R.outR) /\ SameNumbers(C.out, R.outR[C.k]))
-Mechanism == Check("Mechanism", C.out.kind \in {"exc", "bad"} \/ R.outI[C.k].kind = "undef" \/
-                                  (SameKind(C.out, R.outR[C.k]) /\ SameNumbers(C.out, R.outI[C.k])))
+\* the program is interpreted once per clause evaluation (LET values are cached by TLC, definitions are not)
+RunC == Run(UnpackProg(C.prog), TRUE)
+ApplyOK(r) == C.k <= Len(r.outR) /\ SameNumbers(C.out, r.outR[C.k])
+MechOK(r) == C.out.kind \in {"exc", "bad"} \/ r.outI[C.k].kind = "undef" \/
+             (SameKind(C.out, r.outR[C.k]) /\ SameNumbers(C.out, r.outI[C.k]))
+ApplyEqualsRef == LET r == RunC IN Check("ApplyEqualsRef", ApplyOK(r))
+Mechanism == LET r == RunC IN Check("Mechanism", MechOK(r))
 \* both in one evaluation of the program
-Verdict == ApplyEqualsRef /\ Mechanism
+Verdict == LET r == RunC IN Check("ApplyEqualsRef", ApplyOK(r)) /\ Check("Mechanism", MechOK(r))
 \* expected value, told to the harness for the human-readable part of a violation report
-TellRef == Tell("ref", [kind |-> R.outR[C.k].kind, val |-> R.outR[C.k].val, jac |-> R.outR[C.k].jac])
+TellRef == LET r == RunC IN Tell("ref", [kind |-> r.outR[C.k].kind, val |-> r.outR[C.k].val, jac |-> r.outR[C.k].jac])
 ==============================================================================
